@@ -22,8 +22,9 @@ use crate::rt;
 const P: &str = "C09";
 pub const POISON_VALUE: u64 = 999_999;
 pub const N_POISON: u32 = 26;
-/// Fault kinds used by the sweep: 0 send error, 1 receive error, 2 peer close, 3.. selected poison kinds.
-pub const SWEEP_KINDS: u32 = 9;
+/// Fault kinds used by the sweep: 0 send error, 1 receive error, 2 peer close, 3..8 selected poison kinds, 9 the
+/// next send never completes.
+pub const SWEEP_KINDS: u32 = 10;
 const SWEEP_POISON: [u32; 6] = [0, 4, 5, 9, 11, 14];
 /// Fault kind "the peer goes silent" (only with client pings enabled: the client then gives up for inactivity).
 const SILENCE: u32 = 100;
@@ -110,7 +111,13 @@ pub async fn scenario() {
 	// the fault: (kind, position). kind: 0 send error, 1 recv error, 2 peer close, 3+k poison k
 	let (kind, pos, front): (Option<u32>, u64, bool) = if let Some(p) = rt::param("fault_at") {
 		let fk = rt::param("fault_kind").unwrap_or(0) as u32;
-		let kind = if fk < 3 { fk } else { 3 + SWEEP_POISON[(fk as usize - 3) % SWEEP_POISON.len()] };
+		let kind = if fk < 3 {
+			fk
+		} else if fk == 9 {
+			SEND_HANG
+		} else {
+			3 + SWEEP_POISON[(fk as usize - 3) % SWEEP_POISON.len()]
+		};
 		(Some(kind), p, false)
 	} else if sweep_base || rt::chance("nofault", 1, 12) {
 		(None, 0, false)
